@@ -217,3 +217,45 @@ class Both(K):
 
 def labels_grammar():
     return extract_grammar([Klass, Both], K)
+
+
+# ----------------------------------------------------------------------------------------
+# float refinements whose bounds are written as int literals (FloatRange(0, 9), as the shipped
+# symbolic-regression grammars do): the field still holds a float, whatever gene selects it
+# ----------------------------------------------------------------------------------------
+from geneticengine.grammar.metahandlers.floats import FloatRange  # noqa: E402
+
+
+class FX(ABC):
+    pass
+
+
+@dataclass
+class FLeaf(FX):
+    x: Annotated[float, FloatRange(0, 9)]
+    y: Annotated[float, FloatRange(-3, 3)]
+
+
+@dataclass
+class FNode(FX):
+    l: FX
+    r: FX
+    z: Annotated[float, FloatRange(5, 5)]
+
+
+def int_literal_float_grammar():
+    return extract_grammar([FLeaf, FNode], FX)
+
+
+def float_fields(p) -> list:
+    """(path, value) of every refined float field of a program of the grammar above"""
+    out = []
+    todo = [("root", p)]
+    while todo:
+        path, x = todo.pop()
+        if isinstance(x, FLeaf):
+            out += [(path + ".x", x.x, 0, 9), (path + ".y", x.y, -3, 3)]
+        elif isinstance(x, FNode):
+            out.append((path + ".z", x.z, 5, 5))
+            todo += [(path + ".l", x.l), (path + ".r", x.r)]
+    return out
